@@ -1181,13 +1181,13 @@ pub fn run(ctx: &mut Ctx) {
     for h in &corpus {
         check_history(ctx, h, usize::MAX, if thorough { usize::MAX } else { 220 });
     }
-    let n = ctx.budget(14, 60);
-    let per_images = if thorough { 800 } else { 130 };
+    let n = ctx.budget(14, 30);
+    let per_images = if thorough { 400 } else { 130 };
     let max_steps = if thorough { 60 } else { 22 };
     for _ in 0..n {
         let mut rng = ctx.rng.fork();
         let h = gen_hist(&mut rng, max_steps, false);
-        check_history(ctx, &h, if thorough { 600 } else { 120 }, per_images);
+        check_history(ctx, &h, if thorough { 300 } else { 120 }, per_images);
     }
 }
 
